@@ -23,6 +23,11 @@ REGEXPS = {  # regexp_filter menu -> predicate on the raw text
     "[0-9]+x": lambda t: re.search(r"[0-9]+x", t, re.A) is not None,
     "^(?!.*password).*$": lambda t: "password" not in t,
     "end#[0-9]+$": lambda t: re.search(r"end#[0-9]+$", t, re.A) is not None,
+    # numbered groups that the expression itself refers to (back-reference, conditional): predicates written by hand
+    "(r)\\1": lambda t: "rr" in t,
+    "^(start )?error(?(1) end)": lambda t: t.startswith("start error end") or t.startswith("error"),
+    "(?i)^error": lambda t: t[:5].lower() == "error",
+    "\\bend\\b": lambda t: re.search(r"(?<![A-Za-z0-9_])end(?![A-Za-z0-9_])", t) is not None,
 }
 PATTERNS = {  # message_pattern menu -> renderer
     "%{type}|%{category}|%{message}": lambda ty, cat, t: "%s|%s|%s" % (TYPES[ty], cat, t),
@@ -359,8 +364,9 @@ def run_config(case):
         if len(elines) != len(msgs):
             return "stderr carries %d lines for %d messages (one-line configuration)" % (len(elines), len(msgs))
         stripped = [ANSI.sub("", l) for l in elines]
+        STATS.cls("message_text_with_terminal_control_sequences", any("\x1b" in m["text"] for m in msgs))
         for l, m in zip(stripped, msgs):
-            if not match_pretty_any_width(l, m["type"], m["cat"] or "default", m["text"]):
+            if not match_pretty_any_width(l, m["type"], m["cat"] or "default", ANSI.sub("", m["text"])):
                 return "console line %r is not the pretty rendering of message %r (%s, category %s)" % (l[:160], m["text"], TYPES[m["type"]], m["cat"] or "default")
         STATS.cls("mode_oneline")
         STATS.cls("messages_from_several_threads", len({m.get("thr", 0) for m in msgs}) > 1)
@@ -493,7 +499,16 @@ def strategy():
                  startup=draw(st.booleans()), daily=draw(st.booleans()), compress=draw(st.booleans()))
         if draw(st.booleans()):
             a["async"] = draw(st.booleans())
-        return dict(mode="oneline", args=a, messages=draw(messages), old=draw(st.integers(0, 2)))
+        msgs = draw(messages)
+        if draw(st.integers(0, 2)) == 0:
+            # message texts that carry terminal control sequences themselves (progress lines, cursor movement, a colour code of the
+            # application's own): "the log file holds the console text minus its terminal colour codes" - the colour codes (ESC [ ... m),
+            # not every sequence that starts like one
+            esc = ["progress 10%\x1b[2Kprogress 20%", "\x1b[Hhome", "cur\x1b[12;40Hpos", "hide\x1b[?25l", "tail\x1b[", "lone\x1besc", "\x1b[31mred\x1b[0m text",
+                   "\x1b[mreset", "up\x1b[1A\x1b[2Kagain", "\x1b[38;5;172morange\x1b[0m", "semi\x1b[1;K", "\x1b]0;title\x07x", "m only [0m", "\x1b[0;1;31mbold\x1b[0mK"]
+            for i in sorted(set(draw(st.lists(st.integers(0, len(msgs) - 1), min_size=1, max_size=4)))):
+                msgs[i] = dict(msgs[i], text="%s#%d" % (draw(st.sampled_from(esc)), i))
+        return dict(mode="oneline", args=a, messages=msgs, old=draw(st.integers(0, 2)))
 
     history = st.lists(st.sampled_from(["installA", "installA", "installB", "F1", "F2", "F3", "restore", "restore", "probe"]), min_size=1, max_size=14).map(lambda ops: dict(mode="history", ops=ops))
     # a flat one_of over composite strategies favours the cheap branches unevenly: pick the mode explicitly
